@@ -70,6 +70,50 @@ new.append(entry("C07",
     assumptions=COMMON_ASSUME + ["fmt.Sprintf(\"%08v\", uint32) = decimal digits zero-padded to 8 (digit witnesses); strconv.Atoi of an all-digit string is its decimal value"],
     explanation="`reject`: invalid arguments (the INVALID predicate transcribed from the property statement) give an error with the ghost trace `sent` unchanged; `once`: every other argument tuple (in the encodable domain) sends exactly one request, i.e. a call is rejected only for the listed reasons. Wiegand-26 is the arithmetic predicate card/100000 <= 255 && card%100000 <= 65535."))
 
+
+SAFETY = r"#(index|slice|nil|nilmap|assert|div|panic|libpre|makeslice|requires)[@:]"
+INLINED_ONLY = "reflective codec function: analysed on its real body inlined into every API operation, lemma function and listener handler for the concrete message type (reflect on a statically unknown type is outside the engine's model)"
+new.append(entry("C04",
+    functions=OPS + ["uhppote.sendto$1", "uhppote.(*uhppote).udpBroadcastTo$1"],
+    sweep=["types", "uhppote", "messages", "encoding/bcd", "encoding/UTO311-L0x"],
+    sweep_exclude={
+        "encoding/UTO311-L0x.Marshal": INLINED_ONLY, "encoding/UTO311-L0x.marshal": INLINED_ONLY,
+        "encoding/UTO311-L0x.Unmarshal": INLINED_ONLY, "encoding/UTO311-L0x.unmarshal": INLINED_ONLY,
+        "encoding/UTO311-L0x.UnmarshalAs": INLINED_ONLY, "encoding/UTO311-L0x.UnmarshalArray": INLINED_ONLY,
+        "encoding/UTO311-L0x.UnmarshalArrayElement": INLINED_ONLY,
+        "encoding/UTO311-L0x.Dump": "debug hex dump (only called when debug is on): VC generation exceeds the budget (formatting loops over fmt.Sprintf without a model)",
+        "messages.UnmarshalRequest": "dispatch through a table of constructors returning `any`: the dynamic type is not statically known; decided per message type by the lemma functions of C05 where built",
+        "messages.UnmarshalResponse": "as UnmarshalRequest",
+        "uhppote.(*uhppote).broadcast": INLINED_ONLY + " (inlined into GetDevices)",
+        "uhppote.(*uhppote).GetDevices": "filter-map loop over the discovery replies needs the C11 contracts (not built): VC generation explodes without an invariant",
+        "uhppote.(*uhppote).DeviceList": "range over a map: VC generation explodes (no iterator model yet)",
+        "uhppote.(*uhppote).ListenAddrList": "engine limitation (address of a local array element inside an unrolled loop)",
+        "uhppote.NewUHPPOTE": "loop over the caller's device list needs an invariant (C17 contracts, not built)",
+        "uhppote.(*uhppote).tcpSendTo": "helper verified inlined into sendto$1, which establishes driver != nil and len(request) == 64",
+        "uhppote.(*uhppote).udpSendTo": "helper verified inlined into sendto$1",
+        "uhppote.(*uhppote).udpBroadcastTo": "helper verified inlined into sendto$1",
+        "uhppote.(*uhppote).udpBroadcast": "helper of GetDevices (see there)",
+        "uhppote.(*ut0311).Broadcast": "real sockets and a goroutine: outside the sequential subset beyond its prefix; VC generation exceeds the budget",
+        "uhppote.(*ut0311).BroadcastTo": "real sockets: VC generation exceeds the budget (C09 typestate contracts not built)",
+        "uhppote.(*ut0311).SendTCP": "real sockets: VC generation exceeds the path budget",
+        "uhppote.(*ut0311).SendUDP": "real sockets: VC generation exceeds the path budget",
+        "uhppote.(*ut0311).Listen": "goroutines and channels: outside the sequential subset",
+        "types.(HHmm).before": "helper with a documented panic for foreign types: verified inlined into HHmm.Before (C16), whose callers pass time.Time or HHmm",
+        "types.(HHmm).after": "as before",
+        "types.(TaskType).String": "string table indexed by a request-only enum: values come from the library's own parsers (1..13); not a value any operation returns",
+        "types.(TaskType).MarshalJSON": "as TaskType.String",
+        "types.(Task).String": "calls TaskType.String (see there)",
+        "types.(CardFormat).String": "string table indexed by a request-only enum (0..1 from the library's parser)",
+        "types.(*CardFormat).UnmarshalConf": "map with string keys is outside the engine's map model",
+        "types.(*Segments).UnmarshalJSON": "loop over a decoded JSON map needs an invariant (C14, not built)",
+        "types.(*Weekdays).UnmarshalJSON": "loop over a decoded JSON map needs an invariant (C14, not built)",
+    },
+    scope=[SAFETY],
+    assumptions=COMMON_ASSUME + ["a method is called on a non-nil receiver unless its contract says otherwise", "library functions do not panic when their assumed preconditions (libpre obligations) hold",
+                                 "Must* constructors panic by design (contract attribute maypanic)"],
+    not_decided=["functions listed under sweep_not_covered in the evidence (goroutines, real sockets, reflection on unknown types)"],
+    explanation="Absence of run-time panics: every index, slice-bounds, nil-dereference, nil-map write, type-assertion, division, explicit-panic and library-precondition obligation of every source function of the five packages (zero-annotation sweep; thin requires only where callers establish them), with the reply bytes, their length and all arguments symbolic."))
+
 ids = {e["id"] for e in new}
 out = [p for p in props if p["id"] not in ids] + new
 out.sort(key=lambda p: p["id"])
